@@ -26,3 +26,99 @@ Example aggs_ignore_paging_nonvacuous :
   rmap (fun r => map h_doc (fst r)) (topn_aggs ex_aggs 1 ex_order (PFrom 1) ex_hits) = Ok [7].
 Proof. exact aggs_ignore_paging_ex. Qed.
 Print Assumptions aggs_ignore_paging_nonvacuous.
+
+(* the root bucket is the list of its calculators, each run over the matched documents *)
+Theorem aggs_of_per_calculator : forall aggs hits,
+  aggs_of aggs hits = map (fun p => run_one (snd p) (matched aggs hits)) aggs.
+Proof. exact aggs_of_each. Qed.
+Print Assumptions aggs_of_per_calculator.
+
+(* CountMatches = number of matched documents *)
+Theorem count_exact : forall ms,
+  exists q, run_one a_count ms = KVal (XFin q) /\ (q == inject_Z (Z.of_nat (length ms)))%Q.
+Proof. exact count_exact_all. Qed.
+Print Assumptions count_exact.
+
+(* Sum over finite values = exact rational sum of every value of every matched document *)
+Theorem sum_exact : forall s ms qs, all_numbers s ms = map XFin qs ->
+  exists q, run_one (a_sum s) ms = KVal (XFin q) /\ (q == sumQ qs)%Q.
+Proof. exact sum_exact_all. Qed.
+Print Assumptions sum_exact.
+
+Theorem min_exact : forall s ms qs, all_numbers s ms = map XFin qs ->
+  (qs = [] -> run_one (a_min s) ms = KVal (XInf false)) /\
+  (qs <> [] -> exists m, run_one (a_min s) ms = KVal (XFin m) /\ In m qs /\ forall q, In q qs -> (m <= q)%Q).
+Proof. exact min_exact_all. Qed.
+Print Assumptions min_exact.
+
+Theorem max_exact : forall s ms qs, all_numbers s ms = map XFin qs ->
+  (qs = [] -> run_one (a_max s) ms = KVal (XInf true)) /\
+  (qs <> [] -> exists m, run_one (a_max s) ms = KVal (XFin m) /\ In m qs /\ forall q, In q qs -> (q <= m)%Q).
+Proof. exact max_exact_all. Qed.
+Print Assumptions max_exact.
+
+(* Avg: numerator = sum of the values, denominator = their number; NaN (0/0) without values *)
+Theorem avg_exact : forall s ms qs, all_numbers s ms = map XFin qs ->
+  exists a b, run_one (AWAvg s None) ms = KWAvg (XFin a) (XFin b) /\ (a == sumQ qs)%Q /\
+              (b == inject_Z (Z.of_nat (length qs)))%Q /\
+              (qs = [] -> calc_value (KWAvg (XFin a) (XFin b)) = XNaN).
+Proof. exact avg_exact_all. Qed.
+Print Assumptions avg_exact.
+
+(* WeightedAvg: sum of value * document weight over sum of weights (weight = the document's
+   first weight value, 1 when it has none), exact; the metric is their quotient *)
+Theorem wavg_exact : forall s w ms pq,
+  weighted_values s w ms = map (fun p => (XFin (fst p), XFin (snd p))) pq ->
+  exists a b, run_one (AWAvg s w) ms = KWAvg (XFin a) (XFin b) /\ (a == sum_vw pq)%Q /\ (b == sum_w pq)%Q /\
+              (~ (b == 0)%Q -> xq_equiv (calc_value (KWAvg (XFin a) (XFin b))) (XFin (sum_vw pq / sum_w pq))).
+Proof. exact wavg_exact_all. Qed.
+Print Assumptions wavg_exact.
+
+(* terms: total = matches; one bucket per distinct term of the matched documents; the bucket of
+   nm holds the nested calculators (count first, then the nested metrics) run over exactly the
+   matched documents carrying nm *)
+Theorem terms_counts_exact : forall t size subs ms,
+  exists bks, run_one (ATerms t size subs) ms = KTerms bks (Z.of_nat (length ms)) /\
+    NoDup (map fst bks) /\
+    (forall nm, In nm (map fst bks) <-> exists h, In h ms /\ In nm (tvalues t h)) /\
+    (forall nm cs, In (nm, cs) bks -> cs = run_subs subs (terms_members t nm ms)).
+Proof. exact terms_counts_exact_all. Qed.
+Print Assumptions terms_counts_exact.
+
+(* nested calculators are the plain calculators run on the bucket's documents, so count_exact,
+   sum_exact, ... apply to them *)
+Theorem nested_metrics_exact : forall subs l, run_subs subs l = map (fun p => run_one (snd p) l) subs.
+Proof. exact run_subs_each. Qed.
+Print Assumptions nested_metrics_exact.
+
+(* single-valued field, any distinct returned names: matches - sum of returned counts = number of
+   matches in no returned bucket (check_obs ties Other() to the left-hand side) *)
+Theorem terms_other_exact : forall t names ms, NoDup names ->
+  (forall h, In h ms -> (length (tvalues t h) <= 1)%nat) ->
+  Z.of_nat (length ms) - sum_counts t names ms = Z.of_nat (length (filter (fun h => negb (in_names t names h)) ms)).
+Proof. exact terms_other_exact_all. Qed.
+Print Assumptions terms_other_exact.
+
+(* numeric ranges: bucket [low, high) = nested calculators over the documents with a value v,
+   low <= v < high, once per such value *)
+Theorem range_counts_exact : forall s ranges subs ms,
+  run_one (ARange s ranges subs) ms =
+  KBuckets (map (fun r => run_subs subs (range_members in_range (numbers s) r ms)) ranges).
+Proof. exact range_counts_exact_all. Qed.
+Print Assumptions range_counts_exact.
+
+Theorem date_range_counts_exact : forall f ranges subs ms,
+  run_one (ADateRange f ranges subs) ms =
+  KBuckets (map (fun r => run_subs subs (range_members in_date_range (dates f) r ms)) ranges).
+Proof. exact date_range_counts_exact_all. Qed.
+Print Assumptions date_range_counts_exact.
+
+(* the sketches are fed exactly the matched values, in hit order (hyperloglog / t-digest are
+   parameters: whatever they compute, they compute it on this list) *)
+Theorem cardinality_fed_exactly : forall t ms, run_one (ACard t) ms = KFedT (flat_map (tvalues t) ms).
+Proof. exact cardinality_fed_exactly_all. Qed.
+Print Assumptions cardinality_fed_exactly.
+
+Theorem quantile_fed_exactly : forall s ms, run_one (AQuant s) ms = KFedN (all_numbers s ms).
+Proof. exact quantile_fed_exactly_all. Qed.
+Print Assumptions quantile_fed_exactly.
